@@ -38,6 +38,9 @@ def holds(post, asg):
         return (not all(lit_val(l, asg) for l in post[1])) or bool(lit_val(post[2], asg))
     if k in ("amo_quad", "amo_heule"):
         return sum(lit_val(l, asg) for l in post[1]) <= 1
+    if k == "exactly_one":
+        # at most one (either encoding) AND at least one, posted from ONE list object
+        return sum(lit_val(l, asg) for l in post[1]) == 1
     if k == "pb":
         s = sum(c * lit_val((v, sg), asg) for c, v, sg in post[1])
         op, b = post[2], post[3]
@@ -80,6 +83,17 @@ def post_to(sm, post):
         sm.quadraticencoding([mk_lit(sm, l) for l in post[1]])
     elif k == "amo_heule":
         sm.heuleencoding([mk_lit(sm, l) for l in post[1]], post[2])
+    elif k == "exactly_one":
+        # the usual idiom: the same list object goes to the at-most-one encoder and to add_clause, in either order
+        lst = [mk_lit(sm, l) for l in post[1]]
+        if post[3]:
+            sm.add_clause(lst)
+        if post[2] >= 3:
+            sm.heuleencoding(lst, post[2])
+        else:
+            sm.quadraticencoding(lst)
+        if not post[3]:
+            sm.add_clause(lst)
     elif k == "pb":
         # one inequality OBJECT may be looked at and posted more than once (once per construction, after an isclause() query, again
         # after having been refused): a redundant posting restricts nothing further, a refused one stays refused
@@ -191,6 +205,8 @@ def run_script(c):
             if p[0] == "pb":
                 ineq = mk_ineq(S.SATManager(), p)
                 cls.append("pb-clause-shortcut" if ineq.isclause() else ("pb-robdd-decomp" if p[4] else "pb-robdd"))
+            if p[0] == "exactly_one" and p[2] >= 3 and len(p[1]) > p[2]:
+                cls.append("exactly-one-from-one-list-chained")
             if p[0] == "amo_heule" and len(p[1]) > 2 * p[2] - 2:
                 cls.append("heule-depth2")
             if p[0] in ("amo_heule", "amo_quad") and len(p[1]) >= 2:
@@ -330,7 +346,9 @@ def script_s(draw):
             return ["imply", [lit() for _ in range(draw(_i(0, 3)))], lit()]
         if k == 2:
             return ["amo_quad", [lit() for _ in range(draw(_i(0, 6)))]]
-        if k in (3, 4):
+        if k == 3:
+            return ["exactly_one", [lit() for _ in range(draw(_i(1, 9)))], draw(st.sampled_from([0, 3, 3, 4])), draw(st.booleans())]
+        if k == 4:
             return ["amo_heule", [lit() for _ in range(draw(_i(0, 10)))], draw(_i(3, 6))]
         return pbpost()
 
@@ -358,5 +376,5 @@ def script_s(draw):
 def subchecks():
     return [
         Sub("scripts", run_script, strategy=script_s(), n_quick=12000, n_thorough=300000, fuzz_thorough=6000,
-            required=("pb-robdd", "pb-robdd-decomp", "pb-clause-shortcut", "heule-depth2", "refused", "history", "sat", "unsat", "shared-subexpression", "same-inequality-object-used-again", "scaled-expression", "negative-multiple-of-a-negated-term")),
+            required=("pb-robdd", "pb-robdd-decomp", "pb-clause-shortcut", "heule-depth2", "refused", "history", "sat", "unsat", "shared-subexpression", "same-inequality-object-used-again", "scaled-expression", "negative-multiple-of-a-negated-term", "exactly-one-from-one-list-chained")),
     ]
